@@ -550,7 +550,7 @@ def gen_inputs(rng, cmd, shape=None, n=None, style="valid", dtypes=None, mask_st
     elif how == "ab":
         n = 2
     elif n is None:
-        n = rng.choice([1, 2, 2, 3, 3, 4, 5])
+        n = rng.choice([1, 2, 2, 3, 3, 4, 5]) if rng.random() < 0.93 else rng.choice([9, 12, 17])      # sometimes long input lists
         if cmd == "FuzzyXOr" and n < 2 and style != "wild":
             n = 2
     arrs = []
@@ -719,7 +719,7 @@ def gen_chains(rng, count, consumers=None, style="wild"):
     return cases
 
 
-def run_stream(ctx, model, cases, stream, tol=common.TOL, on_result=None, rerun=True, narrow=True, pipeline=True, layout=True, strict=True):
+def run_stream(ctx, model, cases, stream, tol=common.TOL, on_result=None, rerun=True, narrow=True, pipeline=True, layout=True, strict=True, payload=True):
     """runs cases on implementation and model, records disagreements; calls on_result(case, out, answer)"""
     outs = []
     kept = []
@@ -780,6 +780,21 @@ def run_stream(ctx, model, cases, stream, tol=common.TOL, on_result=None, rerun=
             if d:
                 ctx.fail("%s: with numpy.seterr(divide='raise', invalid='raise') set by the caller the outcome differs (%s%s)" % (
                     c.cmd, d, "; " + str(out4.get("text"))[:80] if out4["status"] == "err" else ""), c.describe())
+        if payload and out["status"] == "ok" and any(a.dtype.kind == "f" and numpy.ma.getmaskarray(a).any() for a in c.inputs) and ctx.rng.random() < 0.6:
+            # what lies beneath a missing cell may be anything, NaN and infinities included (what masked_invalid or a reader leaves behind)
+            ins = []
+            for a in c.inputs:
+                d, m = numpy.ma.getdata(a).copy(), numpy.ma.getmaskarray(a).copy()
+                if a.dtype.kind == "f":
+                    d[m] = ctx.rng.choice([numpy.nan, numpy.inf, -numpy.inf])
+                ins.append(numpy.ma.array(d, mask=m))
+            twin_ids = {}
+            ins = [twin_ids.setdefault(id(a), b) for a, b in zip(c.inputs, ins)]      # one object listed twice stays one object
+            out5 = run_impl(Case(c.cmd, c.params, ins))
+            ctx.count("nonfinite_payload_twins")
+            d = _same(out, out5)
+            if d:
+                ctx.fail("%s: with NaN / infinity stored beneath the missing cells of its inputs the outcome differs (%s): hidden values leak" % (c.cmd, d), c.describe())
         if pipeline and not trivial:
             # the same arguments through Program / Command.run / validate_params / the parameter cleaners: what the body is given, and what
             # comes back, must be what a direct call of the body gives (an argument equal to 0, "" or [] is still an argument)
